@@ -67,6 +67,32 @@ def schema_programs():
     mn = {'n': 'm', 'args': [['i', ['c', 'Item', {}]], ['j', ['c', 'Item2', {}]], ['k', ['c', 'Item3', {}]]], 'ret': ['c', 'Item', {}]}
     out.append(('named-simple-types', {'tns': TNS, 'simples': simples, 'enums': {'Shade': ['light', 'dark']}, 'classes': [Item, Item2, Item3], 'services': [{'n': 'S', 'methods': [mn]}]},
                 [[Obj('Item', code='abc', n=1), Obj('Item2', c='x', s=50, l='y', ca='zz', a1=1, a2='dark', a3=7, a4=5), Obj('Item3', s=99, cs=['ab', 'cdefgh'])]]))
+    # xs:choice groups: two groups whose names are not in alphabetical order, one member of each set
+    Login = {'n': 'Login', 'fields': [['realm', U], ['host', ['p', 'Unicode', {'xml_choice_group': 'target'}]], ['address', ['p', 'Unicode', {'xml_choice_group': 'target'}]],
+                                      ['token', ['p', 'Unicode', {'xml_choice_group': 'auth'}]], ['pin', ['p', 'Integer', {'xml_choice_group': 'auth'}]], ['tail', I]]}
+    ml = {'n': 'm', 'args': [['l', ['c', 'Login', {}]]], 'ret': ['c', 'Login', {}]}
+    out.append(('choice-groups', {'tns': TNS, 'classes': [Login], 'services': [{'n': 'S', 'methods': [ml]}]},
+                [[Obj('Login', realm='r', host='h', address=None, token='t', pin=None, tail=1)], [Obj('Login', realm=None, host=None, address='a', token=None, pin=5, tail=None)]]))
+    # anonymous types customised in several steps next to siblings whose names are those of the generated ancestor types
+    for order in ('chain-first', 'sibling-first'):
+        chain = ['p', 'Unicode', {'pattern': '[a-z]+', 'max_len': 10, '_steps': [{'pattern': '[a-z]+'}, {'max_len': 10}]}]
+        chain3 = ['p', 'Integer', {'ge': 0, 'le': 50, '_steps': [{'ge': 0}, {'le': 99}, {'le': 50}]}]
+        fl = [['node', chain], ['nodeParent', ['p', 'Unicode', {'max_len': 4}]], ['num', chain3], ['numParent', ['p', 'Integer', {'ge': -5}]],
+              ['numParentParent', ['p', 'Unicode', {'min_len': 1}]]]
+        if order == 'sibling-first':
+            fl = [fl[1], fl[0], fl[4], fl[3], fl[2]]
+        Row = {'n': 'Row', 'fields': fl}
+        mr = {'n': 'm', 'args': [['r', ['c', 'Row', {}]]], 'ret': ['c', 'Row', {}]}
+        out.append(('anonymous-chains-' + order, {'tns': TNS, 'classes': [Row], 'services': [{'n': 'S', 'methods': [mr]}]},
+                    [[Obj('Row', node='abc', nodeParent='AB12', num=7, numParent=-3, numParentParent='x y')]]))
+    # Array(T) and Iterable(T) of the same member type share one published array type: in both declaration orders
+    for order in ('array-first', 'iterable-first'):
+        Xc = {'n': 'Xc', 'fields': [['v', I]]}
+        ta, ti = ['a', ['c', 'Xc', {}], {}], ['it', ['c', 'Xc', {}], {}]
+        args = [['p', ta], ['q', ti]] if order == 'array-first' else [['p', ti], ['q', ta]]
+        mo = {'n': 'm', 'args': args, 'ret': ta if order == 'array-first' else ti}
+        out.append(('array-and-iterable-' + order, {'tns': TNS, 'classes': [Xc], 'services': [{'n': 'S', 'methods': [mo]}]},
+                    [{'args': [[Obj('Xc', v=1)], [Obj('Xc', v=2), Obj('Xc', v=3)]], 'ret': [Obj('Xc', v=4)]}]))
     # bare / out_bare methods: every combination of nillable / non-nillable argument and result; a nillable result is None
     for style in ('bare', 'out_bare'):
         for an, rn in itertools.product((True, False), repeat=2):
